@@ -23,6 +23,13 @@
 //       rep rect C R SX SY | rep reg C R V1X V1Y V2X V2Y | rep ex N x,y.. | rep exx N c.. | rep exy N c..
 //       prop NAME v..  (v = u:N | i:N | r:DOUBLE | s:HEX)  attaches to the last element/cell; libprop NAME v..
 //     Property lists and value lists keep the order given.
+//   history <prefix> <circle_tolerance> ; <cmd> ; <cmd> ... | <op> | <op> ...     one Library object through a save history
+//     ops:  write LEVEL FLAGS          write_oas to <prefix>.<k>.oas (k = 0,1,.. per write); the library is dumped first
+//           addref PARENT CHILD x,y    add a by-pointer reference (cells looked up by name in the current library)
+//           rmcell NAME                take the cell out of the library (it stays alive: pointers to it keep working)
+//           reload                     read_oas the last written file and continue from the loaded library
+//                                        -> {"job":i,"kind":"history","writes":[{"path":..,"level":..,"flags":..,"err":E,"src":<dump>}..],
+//                                            "ops":[text of what each op did]}
 // Error codes are gdstk::ErrorCode values.  error_logger is NULL.  A crash kills the process: the caller
 // attributes it to the first job without a result line.
 #include <gdstk/gdstk.hpp>
@@ -247,7 +254,13 @@ struct Builder {
     }
     void destroy() {
         for (Cell* c : outside) { c->free_all(); free_allocation(c); }
+        outside.clear();
         lib.free_all();
+    }
+    Cell* find(const std::string& name) {
+        for (uint64_t i = 0; i < lib.cell_array.count; i++)
+            if (name == lib.cell_array[i]->name) return lib.cell_array[i];
+        return NULL;
     }
 };
 
@@ -306,6 +319,61 @@ int main(int argc, char** argv) {
             double p = 0;
             ErrorCode err = oas_precision(t[1].c_str(), p);
             res += ",\"kind\":\"precision\",\"precision\":" + vf::jnum(p) + ",\"err\":" + std::to_string((int)err);
+        } else if (t[0] == "history" && t.size() >= 3) {
+            std::vector<std::string> segs = split(s, '|');
+            std::vector<std::string> bparts = split(segs[0], ';');
+            Builder b;
+            bool ok = true;
+            for (size_t i = 1; i < bparts.size() && ok; i++) ok = b.command(tokens(bparts[i]));
+            if (!ok) {
+                res += ",\"kind\":\"bad\",\"error\":" + vf::jstr(b.error);
+            } else {
+                b.finish();
+                double ctol = strtod(t[2].c_str(), NULL);
+                std::vector<std::string> writes, opsdone;
+                std::string last;
+                int k = 0;
+                for (size_t i = 1; i < segs.size(); i++) {
+                    std::vector<std::string> o = tokens(segs[i]);
+                    if (o.empty()) continue;
+                    if (o[0] == "write" && o.size() >= 3) {
+                        last = t[1] + "." + std::to_string(k++) + ".oas";
+                        std::string src = dump::library(b.lib);
+                        ErrorCode err = b.lib.write_oas(last.c_str(), ctol, (uint8_t)atoi(o[1].c_str()), (uint16_t)strtoul(o[2].c_str(), NULL, 0));
+                        writes.push_back("{\"path\":" + vf::jstr(last) + ",\"level\":" + o[1] + ",\"flags\":" + std::to_string(strtoul(o[2].c_str(), NULL, 0)) +
+                                         ",\"err\":" + std::to_string((int)err) + ",\"src\":" + src + "}");
+                        opsdone.push_back(vf::jstr("write"));
+                    } else if (o[0] == "addref" && o.size() >= 4) {
+                        Cell* pa = b.find(o[1]);
+                        Cell* ch = b.find(o[2]);
+                        if (pa && ch && pa != ch) {
+                            Reference* r = (Reference*)allocate_clear(sizeof(Reference));
+                            r->type = ReferenceType::Cell;
+                            r->cell = ch;
+                            r->origin = vec(o[3]);
+                            r->magnification = 1;
+                            pa->reference_array.append(r);
+                            opsdone.push_back(vf::jstr("addref"));
+                        } else opsdone.push_back(vf::jstr("addref:skipped"));
+                    } else if (o[0] == "rmcell" && o.size() >= 2) {
+                        Cell* c = b.find(o[1]);
+                        if (c) {
+                            b.lib.cell_array.remove_item(c);
+                            b.outside.push_back(c);
+                            opsdone.push_back(vf::jstr("rmcell"));
+                        } else opsdone.push_back(vf::jstr("rmcell:skipped"));
+                    } else if (o[0] == "reload") {
+                        if (last.empty()) { opsdone.push_back(vf::jstr("reload:skipped")); continue; }
+                        ErrorCode err = ErrorCode::NoError;
+                        Library nl = read_oas(last.c_str(), 0, 0, &err);
+                        b.destroy();
+                        b.lib = nl;
+                        opsdone.push_back(vf::jstr("reload:err" + std::to_string((int)err)));
+                    } else opsdone.push_back(vf::jstr("unknown:" + o[0]));
+                }
+                res += ",\"kind\":\"history\",\"writes\":" + vf::jarr(writes) + ",\"ops\":" + vf::jarr(opsdone);
+            }
+            b.destroy();
         } else if (t[0] == "write" && t.size() >= 5) {
             Builder b;
             bool ok = true;
